@@ -16,8 +16,9 @@ LEVEL_TEXT = ("Every DNARegex.search / SeqMatch.group call made by the workload 
 LEVEL_NOTE = "trusts CPython, Biopython Seq/SeqRecord slicing, and the 100-line reference matcher mon/rxmodel.py with its hand-typed IUPAC table"
 RULE = ("(i) exhaustive: 15 IUPAC codes x {A,C,G,T} x {upper,lower} x 4 target kinds, alone and embedded in a literal context; "
         "(ii) exhaustive: every target over {A,C,G} of length 1..6 (thorough: 1..8) - hence every placement of the origin - "
-        "against a pool of patterns with capture groups of every length, greedy and lazy runs, nested groups, on 4 target kinds "
-        "(Seq linear, Seq searched non-linearly, SeqRecord, CircularRecord); (iii) random patterns from the grammar x random "
+        "against a pool of patterns with capture groups of every length, greedy and lazy runs, nested groups, on 5 target kinds "
+        "(Seq linear, Seq searched non-linearly, SeqRecord, SeqRecord searched non-linearly, CircularRecord), plus histories that reuse "
+        "one regex object on one target object in alternating modes and after the record's sequence was replaced; (iii) random patterns from the grammar x random "
         "targets (mixed case) x random pos/endpos; (iv) embedded: all concrete kit classes typing instances of their structure at "
         "every rotation inside the flanks, and registry plasmids typed by their registry class at hostile rotations. "
         "Non-trivial = the search returned a match and every group was extracted and compared; distinct = distinct "
@@ -27,11 +28,11 @@ ASSUMPTIONS = [
     "targets are over ACGT/acgt; 0 <= pos",
     "endpos bounds the start position (the documented 'requested range'), not the end of the match",
 ]
-FLOORS = {"search_calls": 2000, "group_calls": 2000, "group_straddling": 50, "group_past_end": 20, "search_wrapped_matches": 50}
+FLOORS = {"same_object_history_searches": 1000, "search_calls": 2000, "group_calls": 2000, "group_straddling": 50, "group_past_end": 20, "search_wrapped_matches": 50}
 MUST_REACH = ["DNARegex.search", "SeqMatch.group"]
 NEEDS_REGISTRIES = True
 BUDGET_S = {"quick": 900, "thorough": 7200}
-KINDS = ["seq-lin", "seq-circ", "rec-lin", "circrec"]
+KINDS = ["seq-lin", "seq-circ", "rec-lin", "rec-circ", "circrec"]
 POOL = ["AA(NN)", "(A)(N*)(C)", "(A)(N*?)(C)", "(N)", "(NN)(N)", "A(N(N)N)C", "((A)N*?)(G)", "(N+)(A)", "(N+?)(A)(N*)",
         "(NNN)(NNN)", "C(N*)(NN)A", "(S)(W*)(S)", "G(NNNN)", "(NNNNN)N", "(N)(N)(N)(N)", "A*(C)", "(R+)(Y+)"]
 
@@ -49,12 +50,12 @@ def cases(tier, seed):
             texts.append("".join(t))
     for j in range(0, len(texts), 40):
         out.append({"kind": "short", "texts": texts[j:j + 40]})
-    nrand = 3000 if tier == "quick" else 150000
+    nrand = 3000 if tier == "quick" else 800000
     for j in range(0, nrand, 100):
         out.append({"kind": "random", "seed": seed, "from": j, "count": 100})
     classes = gen.concrete_kit_classes()
     for c in classes:
-        out.append({"kind": "kit-instance", "cls": gen.class_name(c), "seed": seed, "count": 2 if tier == "quick" else 12})
+        out.append({"kind": "kit-instance", "cls": gen.class_name(c), "seed": seed, "count": 2 if tier == "quick" else 40})
     its = regs.items()
     step = 6 if tier == "quick" else 1
     for j, (rname, key, cls, rec) in enumerate(its):
@@ -112,7 +113,36 @@ def _target(kind, text):
         return Seq(text), {"linear": False}
     if kind == "rec-lin":
         return SeqRecord(Seq(text), "x"), {}
+    if kind == "rec-circ":
+        return SeqRecord(Seq(text), "x"), {"linear": False}
     return CircularRecord(Seq(text), "x"), {}
+
+
+def _same_object_history(ctx, pattern, text, other, rx_cache):
+    """consecutive searches with ONE regex object on ONE target object: alternating linear / non-linear mode, and a
+    SeqRecord whose .seq is replaced between two searches - each call is judged by the monitor on its own"""
+    from Bio.Seq import Seq
+    from Bio.SeqRecord import SeqRecord
+
+    rx = rx_cache[pattern]
+    s = Seq(text)
+    r = SeqRecord(Seq(text), "h")
+    for target in (s, r):
+        for lin in (True, False, True, False):
+            ctx.count("evaluations")
+            ctx.count("same_object_history_searches")
+            m = rx.search(target, linear=lin)
+            if m is not None:
+                for g in range(m.match.re.groups + 1):
+                    m.group(g)
+    r.seq = Seq(other)
+    for lin in (False, True):
+        ctx.count("evaluations")
+        ctx.count("same_object_history_searches")
+        m = rx.search(r, linear=lin)
+        if m is not None:
+            for g in range(m.match.re.groups + 1):
+                m.group(g)
 
 
 def _do_search(ctx, pattern, text, kind, pos=0, endpos=None, rx_cache={}):
@@ -120,6 +150,8 @@ def _do_search(ctx, pattern, text, kind, pos=0, endpos=None, rx_cache={}):
 
     if pattern not in rx_cache:
         rx_cache[pattern] = DNARegex(pattern)
+    if kind == "history":
+        return _same_object_history(ctx, pattern, text, pos, rx_cache)
     t, kw = _target(kind, text)
     if endpos is not None:
         kw["endpos"] = endpos
@@ -151,10 +183,12 @@ def execute(mat, ctx):
                     _do_search(ctx, "G(" + code + ")A", "g" + nuc + "A", tk)
         ctx.sample({"kind": "letters", "pairs": 15 * 8 * 4})
     elif kind == "short":
-        for text in mat["texts"]:
+        for j, text in enumerate(mat["texts"]):
             for p in POOL:
                 for tk in KINDS:
                     _do_search(ctx, p, text, tk)
+                if j % 4 == 0:
+                    _do_search(ctx, p, text, "history", pos=mat["texts"][(j + 7) % len(mat["texts"])])
         ctx.sample({"kind": "short", "texts": mat["texts"][:3], "patterns": POOL[:4]}, cap=1)
     elif kind == "random":
         for j in range(mat["from"], mat["from"] + mat["count"]):
